@@ -18,6 +18,7 @@
  *   LC TM <qid> s<k> <rcode> <tc> <an> <respopt> <reqopt> <reqoptcnt>
  *                                    ares_cookie_validate entered: the response matched the query
  *   LC TMR <rc> <requeued>           ... returned (requeued: the query left its connection)
+ *   LC TU <n> / LC TUE               ares_servers_update entered (n entries in the new list) / returned
  *   LC TX s<k> <status>              handle_conn_error -> ares_close_connection
  *   LC TE <qid> <status>             ares_metrics_record = entry of end_query
  *   LC TP <rc> <nodes> <v4> <v6>     ares_parse_into_addrinfo in host_callback (ai has nodes / an
@@ -200,4 +201,20 @@ void __wrap_ares_check_cleanup_conns(const ares_channel_t *channel)
   if (sim_lctrace()) {
     sim_ev("LC TKE");
   }
+}
+
+ares_status_t __real_ares_servers_update(ares_channel_t *channel, ares_llist_t *server_list,
+                                         ares_bool_t user_specified);
+ares_status_t __wrap_ares_servers_update(ares_channel_t *channel, ares_llist_t *server_list,
+                                         ares_bool_t user_specified)
+{
+  ares_status_t st;
+  if (sim_lctrace()) {
+    sim_ev("LC TU %d", (int)ares_llist_len(server_list));
+  }
+  st = __real_ares_servers_update(channel, server_list, user_specified);
+  if (sim_lctrace()) {
+    sim_ev("LC TUE");
+  }
+  return st;
 }
